@@ -132,6 +132,17 @@ func (s *Server) InjectFault(nth int, kind string) {
 	s.faults[s.issued+nth-1] = kind
 }
 
+func (s *Server) markTie(idx int) {
+	s.mu.Lock()
+	defer s.mu.Unlock()
+	for i := len(s.log) - 1; i >= 0; i-- {
+		if s.log[i].Seq == idx {
+			s.log[i].TieSensitive = true
+			return
+		}
+	}
+}
+
 // ClearFaults forgets faults that were injected but not reached.
 func (s *Server) ClearFaults() {
 	s.mu.Lock()
@@ -299,6 +310,12 @@ func decodeResult(resp map[string]any) (*Result, error) {
 	r := &Result{}
 	if n, ok := resp["n"].(json.Number); ok {
 		r.Affected, _ = n.Int64()
+	}
+	if t, ok := resp["tie"].(bool); ok {
+		r.Tie = t
+	}
+	if t, ok := resp["rb"].(bool); ok {
+		r.RolledBack = t
 	}
 	if cols, ok := resp["cols"].([]any); ok {
 		for _, c := range cols {
